@@ -657,7 +657,7 @@ theorem pushFiller_noAdj (st : ScanSt) (h : ScanInv st) (hi : st.inside = false)
     rw [List.getLast?_reverse] at ha
     exact Or.inl (h.2 hi a ha)
 
-theorem splitOnChar_ne_nil (c : Char) (s : List Char) : splitOnChar c s ≠ [] := by
+theorem splitOnChar_nonempty (c : Char) (s : List Char) : splitOnChar c s ≠ [] := by
   cases s with
   | nil => simp [splitOnChar]
   | cons x t =>
@@ -695,7 +695,7 @@ theorem scanStep_inv (w0 : Char) (st st' : ScanSt) (h : ScanInv st) (hs : scanSt
         · rename_i bs hbs
           simp only [Option.some.injEq] at hs
           subst hs
-          have hne := parseAll_ne_nil _ _ (splitOnChar_ne_nil _ _) hbs
+          have hne := parseAll_ne_nil _ _ (splitOnChar_nonempty _ _) hbs
           constructor
           · simp only [List.reverse_append, List.reverse_reverse]
             rw [noAdj_append]
